@@ -72,3 +72,55 @@ func VHTimedMany() {
 	vAssert(len(full) == 1 && <-full == -1, "many timed calls: a send that timed out has sent nothing")
 	vCover("timed many done")
 }
+
+// VHTimedHistory: NH (300, thorough 3000) timed calls one after the other in one goroutine -
+// receives that find a value, receives that time out, sends that fit, sends that time out, calls
+// without a limit that are ready at once, in a fixed pseudo-random order - so that anything the
+// helpers keep between calls (pooled or recycled timers, counters) is reused many times; a
+// recycled timer with a stale tick would make a later call give up at once although its value is
+// ready. Every call's result and the channel contents are checked. (One fixed schedule: a timer
+// fires only when nothing else can run.)
+func VHTimedHistory() {
+	n := vParam("NH")
+	ch := make(chan int, 2)
+	var model []int
+	x := uint32(123456789)
+	next := 1
+	for i := 0; i < n; i++ {
+		x ^= x << 13
+		x ^= x >> 17
+		x ^= x << 5
+		switch int(x>>5) % 6 {
+		case 0, 1: // timed send
+			ok := SendTimeout(ch, next, c19mTimeout)
+			vAssert(ok == (len(model) < 2), "timed history: SendTimeout succeeds exactly when there is room")
+			if ok {
+				model = append(model, next)
+			}
+			next++
+		case 2, 3: // timed receive
+			v, ok := RecvTimeout(ch, c19mTimeout)
+			vAssert(ok == (len(model) > 0), "timed history: RecvTimeout succeeds exactly when a value is queued")
+			if ok {
+				vAssert(v == model[0], "timed history: RecvTimeout returns the head of the queue")
+				model = model[1:]
+			} else {
+				vAssert(v == 0, "timed history: a RecvTimeout that gives up returns the zero value")
+			}
+		case 4: // no limit, ready at once
+			if len(model) < 2 {
+				vAssert(SendTimeout(ch, next, 0), "timed history: an unlimited send with room succeeds")
+				model = append(model, next)
+				next++
+			}
+		case 5:
+			if len(model) > 0 {
+				v, ok := RecvTimeout(ch, -1)
+				vAssert(ok && v == model[0], "timed history: an unlimited receive of a queued value succeeds")
+				model = model[1:]
+			}
+		}
+		vAssert(len(ch) == len(model), "timed history: the channel holds exactly what the model holds")
+	}
+	vCover("timed history done")
+}
